@@ -16,6 +16,7 @@ TRUSTED = ["A-SORT / A-DICTORDER (sorted() of a set yields each member once; dic
            "immutability of GainLoss/transactions after construction (figures are functions of the object)",
            "folds YC/YS and the cut YN are defined by their recursion equations (definitions, not assumptions about rp2)"]
 ASSUMPTIONS = TRUSTED
+E2E = {"quick": 40, "thorough": 1500, "on_doubt": 400}
 
 
 def items(pr):
